@@ -512,7 +512,8 @@ def generated_programs(L):
                     continue
                 rec(prog + [("start",)], True, True, tasks, opened, awaited, n)
             elif a == "X":
-                if not running or len(opened) < sum(1 for k in tasks if k == "gated"):
+                if not running or len(opened) < sum(1 for k in tasks if k == "gated") or "chain" in tasks:
+                    # stop() waits for running tasks: never issue it while a task may still be blocked by the program itself
                     continue
                 rec(prog + [("stop",)], False, ever, tasks, opened, awaited, n)
             elif a in ("Er", "Ex", "Eg"):
